@@ -41,20 +41,33 @@ class C12(Plugin):
             for cert in ("good", "wrongname", "untrusted"):
                 for fault in ("none", "close", "plaintext", "truncate", "transport"):
                     for salpn, calpn in (("none", "none"), ("h2", "h2"), ("h11", "h2"), ("h2", "none")):
-                        full.append(["yes", f"{s}://{h}{p}/", cert, salpn, calpn, fault])
+                        full.append(["yes", f"{s}://{h}{p}/", cert, salpn, calpn, fault, "-"])
         rng.shuffle(full)
         n = 500 if tier == "quick" else 8000
         cases = full[:n]
+        # the caller already set a Host header (another name, the same name, an IP, junk): the name offered and
+        # checked must still be the URI host, so a certificate for the header's name must not be accepted
+        HDRS = ["other.test", "example.test", "other.test:8443", "localhost", "127.0.0.1", "a..b", "EXAMPLE.test"]
+        nh = 60 if tier == "quick" else 1500
+        for _ in range(nh):
+            s = rng.choice(["https", "wss", "HTTPS", "http"])
+            h = rng.choice(self.HOSTS)
+            cases.append(["yes", f"{s}://{h}{rng.choice(self.PORTS)}/", rng.choice(["good", "wrongname", "untrusted"]),
+                          rng.choice(["none", "h2"]), rng.choice(["none", "h2"]), rng.choice(["none", "none", "close"]),
+                          rng.choice(HDRS)])
+        for h in ("127.0.0.1", "[::1]", "example.test", "10.0.0.1"):
+            for cert in ("good", "wrongname"):
+                cases.append(["yes", f"https://{h}/", cert, "none", "none", "none", "other.test"])
         # always: the headline cases
         for s in self.SCHEMES:
             for h in self.HOSTS:
-                cases.append(["yes", f"{s}://{h}/", "good", "none", "none", "none"])
+                cases.append(["yes", f"{s}://{h}/", "good", "none", "none", "none", "-"])
         for h in ("example.test", "[::1]"):
             for cert in ("wrongname", "untrusted"):
-                cases.append(["yes", f"https://{h}/", cert, "h2", "h2", "none"])
+                cases.append(["yes", f"https://{h}/", cert, "h2", "h2", "none", "-"])
             for fault in ("close", "plaintext", "truncate", "transport"):
-                cases.append(["yes", f"wss://{h}/", "good", "none", "none", fault])
-            cases.append(["no", f"https://{h}/", "good", "none", "none", "none"])
+                cases.append(["yes", f"wss://{h}/", "good", "none", "none", fault, "-"])
+            cases.append(["no", f"https://{h}/", "good", "none", "none", "none", "-"])
         return cases, {"rule": f"seeded sample of {n} from scheme x host x port x cert x fault x ALPN ({len(full)} points) + "
                                "every scheme x host with a good certificate + certificate/fault matrix on two hosts",
                        "exhaustive": False}
@@ -73,7 +86,9 @@ class C12(Plugin):
     def terms(self, c, o):
         if o["cls"] == "BADURI":
             return None
-        tls, uri, cert, salpn, calpn, fault = c
+        tls, uri, cert, salpn, calpn, fault = c[:6]
+        hdr = c[6] if len(c) > 6 else "-"
+        hdrv = None if hdr == "-" else hdr
         hk = {"dns": "HDns", "ip": "HIp", "invalid": "HInvalid", "-": "HInvalid"}[o["kind"]]
         host = o["host"]
         stripped = (host or "").strip("[]").lower()
@@ -81,7 +96,7 @@ class C12(Plugin):
         A = {"none": "ANone", "h2": "AH2", "h11": "AH11"}
         F = {"none": "FNone", "close": "FClose", "plaintext": "FPlaintext", "truncate": "FTruncate", "transport": "FTransport"}
         C = {"good": "CGood", "wrongname": "CWrongName", "untrusted": "CUntrusted"}
-        case = (f"mkTls {'true' if tls == 'yes' else 'false'} {ostr(o['scheme'])} {ostr(host)} {hk} {covered} "
+        case = (f"mkTls {'true' if tls == 'yes' else 'false'} {ostr(o['scheme'])} {ostr(host)} {ostr(hdrv)} {hk} {covered} "
                 f"{C[cert]} {A[salpn]} {A[calpn]} {F[fault]}")
         cls = o["cls"]
         if cls == "OKTLS":
@@ -108,18 +123,21 @@ class C12(Plugin):
         return obss, [idx[i] for i in mism], [idx[i] for i in monf]
 
     def shrinks(self, c):
-        tls, uri, cert, salpn, calpn, fault = c
+        tls, uri, cert, salpn, calpn, fault = c[:6]
+        hdr = c[6] if len(c) > 6 else "-"
+        if hdr != "-":
+            yield [tls, uri, cert, salpn, calpn, fault, "-"]
         if (salpn, calpn) != ("none", "none"):
-            yield [tls, uri, cert, "none", "none", fault]
+            yield [tls, uri, cert, "none", "none", fault, hdr]
         if fault != "none":
-            yield [tls, uri, cert, salpn, calpn, "none"]
+            yield [tls, uri, cert, salpn, calpn, "none", hdr]
         if cert != "good":
-            yield [tls, uri, "good", salpn, calpn, fault]
+            yield [tls, uri, "good", salpn, calpn, fault, hdr]
         if ":" in uri.split("://")[1].rstrip("/").split("]")[-1]:
             s, rest = uri.split("://")
             hostport = rest.rstrip("/")
             host = hostport.rsplit(":", 1)[0]
-            yield [tls, f"{s}://{host}/", cert, salpn, calpn, fault]
+            yield [tls, f"{s}://{host}/", cert, salpn, calpn, fault, hdr]
 
     def nontrivial_key(self, c, o):
         if c[0] == "yes" and (o["scheme"] or "").lower() in ("https", "wss"):
@@ -127,9 +145,10 @@ class C12(Plugin):
         return None
 
     def histogram(self, cases, obss):
-        h = {"class": {}, "first": {}, "fault": {}, "cert": {}, "hostkind": {}}
+        h = {"class": {}, "first": {}, "fault": {}, "cert": {}, "hostkind": {}, "hosthdr": {}}
         for c, o in zip(cases, obss):
-            for k, v in (("class", o["cls"]), ("first", o["first"]), ("fault", c[5]), ("cert", c[2]), ("hostkind", o["kind"])):
+            for k, v in (("class", o["cls"]), ("first", o["first"]), ("fault", c[5]), ("cert", c[2]), ("hostkind", o["kind"]),
+                         ("hosthdr", "none" if len(c) < 7 or c[6] == "-" else "set")):
                 h[k][v] = h[k].get(v, 0) + 1
         return h
 
